@@ -607,12 +607,13 @@ func enumerate(t *testing.T) {
 
 func TestC02(t *testing.T) {
 	defer rig.StopAll()
-	rec.SetRule("each case = 1..3 scripted raw-TCP backends (refuse, close/reset before headers, garbage, complete, fault after headers / after k body bytes with close|rst|stall|silence longer than the read timeout followed by the rest of the answer, truncated chunked, short Content-Length; bodies 0..256 KiB self-identifying; 0..6 random headers) x engine x proxy profile x balancer, one POST through the full stack read byte-for-byte; single-fault shapes are enumerated in front of a healthy second backend (also on the Anthropic route of a mixed deployment: a native endpoint that is passed through to, in front of an openai-compatible one), combinations are rapid-generated. Sub-check 'concurrent': 2..32 clients, each sending 4..30 requests back to back, receive complete self-identifying bodies (1 KB..2 MiB, needing many reads) from 2..3 backends; each response must be byte for byte the body of the backend its X-Backend-Id names. non-trivial = >=2 endpoints and the first-dispatched backend fails after writing its status line; distinct by (engine, profile, balancer, fault/framing tuple, first backend)")
+	rec.SetRule("each case = 1..3 scripted raw-TCP backends (refuse, close/reset before headers, garbage, complete, fault after headers / after k body bytes with close|rst|stall|silence longer than the read timeout followed by the rest of the answer, truncated chunked, short Content-Length; bodies 0..256 KiB self-identifying; 0..6 random headers) x engine x proxy profile x balancer, one POST through the full stack read byte-for-byte; single-fault shapes are enumerated in front of a healthy second backend (also on the Anthropic route of a mixed deployment: a native endpoint that is passed through to, in front of an openai-compatible one), combinations are rapid-generated. Sub-check 'concurrent': 2..32 clients, each sending 4..30 requests back to back, receive complete self-identifying bodies (1 KB..2 MiB, needing many reads) from 2..3 backends; each response must be byte for byte the body of the backend its X-Backend-Id names. Sub-check 'timeouts': a 40 ms read timeout and backends that pause 30..50 ms between 8 KiB pieces, 8..32 clients: reads are given up while other responses are relayed; responses may be cut short but never carry a foreign byte. non-trivial = >=2 endpoints and the first-dispatched backend fails after writing its status line; distinct by (engine, profile, balancer, fault/framing tuple, first backend)")
 	rec.Assume("a truncated response delivered as a prefix of one attempt is allowed; only mixing, duplication or alteration is a violation")
-	if ev.Replay(t, rec, "fault", runCase) || ev.Replay(t, rec, "concurrent", runConc) {
+	if ev.Replay(t, rec, "fault", runCase) || ev.Replay(t, rec, "concurrent", runConc) || ev.Replay(t, rec, "timeouts", runTimeouts) {
 		return
 	}
 	enumerate(t)
 	ev.Check(t, rec, "fault", rec.Pick(250, 1500), genCase, runCase)
 	ev.Check(t, rec, "concurrent", rec.Pick(40, 400), genConc, runConc)
+	ev.Check(t, rec, "timeouts", rec.Pick(4, 120), genTimeouts, runTimeouts)
 }
